@@ -15,7 +15,7 @@ Fails(i, j) ==
   LET ei == TraceLog[i]  ej == TraceLog[j]
       x == R(ei)  y == R(ej)
       de == Rng(ei.delEtcd) \cap (y.etcd \ x.etcd)
-      dm == Rng(ei.delMem) \cap (y.mem \ x.mem)
+      dm == (Rng(ei.delMem) \cap (y.mem \ x.mem)) \cup (Rng(ei.delMemC) \cap (y.memc \ x.memc))
   IN (IF P(x, y, de, dm)!C22_DisjointKeys THEN {} ELSE {"C22_DisjointKeys"}) \cup
      (IF P(x, y, de, dm)!C22_NoCapture THEN {} ELSE {"C22_NoCapture"})
 Min(S) == CHOOSE m \in S : \A o \in S : m <= o
